@@ -208,6 +208,29 @@ def run_repeatable(chk, prog):
         for d in f.node.decorator_list:
             t = ast.unparse(d)
             if "cache" in t:
+                # a memoised function whose every result is immutable shares nothing a caller could change: the returned local was frozen
+                # (X.flags.writeable = False / X.setflags(write=False)) or the result is a scalar / tuple / string
+                frozen = set()
+                for x in ast.walk(f.node):
+                    if isinstance(x, ast.Assign) and len(x.targets) == 1 and ast.unparse(x.targets[0]).endswith(".flags.writeable") and isinstance(x.value, ast.Constant) \
+                            and x.value.value is False and isinstance(x.targets[0].value.value, ast.Name):
+                        frozen.add(x.targets[0].value.value.id)
+                    if isinstance(x, ast.Call) and isinstance(x.func, ast.Attribute) and x.func.attr == "setflags" and isinstance(x.func.value, ast.Name) \
+                            and any(k.arg == "write" and isinstance(k.value, ast.Constant) and k.value.value is False for k in x.keywords):
+                        frozen.add(x.func.value.id)
+                rets = [r.value for r in ast.walk(f.node) if isinstance(r, ast.Return) and r.value is not None]
+
+                def immutable(v):
+                    if isinstance(v, ast.Name):
+                        return v.id in frozen
+                    if isinstance(v, ast.Constant):
+                        return True
+                    if isinstance(v, ast.Tuple):
+                        return all(immutable(e) for e in v.elts)
+                    return isinstance(v, ast.Call) and isinstance(v.func, ast.Name) and v.func.id in ("float", "int", "str", "bool", "tuple", "complex")
+                if rets and all(immutable(v) for v in rets) and "cached_property" not in t:
+                    chk.record("REPEATABLE.cache", "%s::@%s" % (f.ref, t.split("(")[0]), "memoised function returns immutable results only (frozen array / scalar / tuple)")
+                    continue
                 chk.finding("REPEATABLE.cache", f.module.rel, f.qname, "@" + t.split("(")[0],
                             "memoising decorator on a function returning arrays: callers share (and may mutate) one result object", line=f.node.lineno)
         a = f.node.args
